@@ -266,6 +266,25 @@ CLAIMED["C07"] = {
     "design": "DESIGN.md section 3 C07",
 }
 
+CLAIMED["C12"] = {
+    "text": "Bounded model checking over crash points and configurations: the real context managers (Input with every "
+            "sigint_event/disable_terminal_start_stop setting, Input nested in Input, FullscreenWindow and CursorAwareWindow "
+            "with every hide_cursor/keep_last_line setting, alone and inside an Input, Cbreak and its Termmode, Nonblocking, "
+            "Termmode) run with real `with` blocks against an OS model (tty attributes, status flags, SIGINT disposition, "
+            "wake-up fd, fd table, pipes, select, clock) and the terminal model. The scenario - initial tty / flag / handler "
+            "/ wake-up state, a body of up to two operations (requests, triggers, SIGINT during a blocked request, render) "
+            "and the crash point (every model call the body makes, raising an ordinary exception or KeyboardInterrupt) - is "
+            "a tuple of selectors enumerated exhaustively by the solver. After leaving: tty attributes, status flags, SIGINT "
+            "handler, wake-up fd and fd table (3 repetitions) equal the snapshot taken before entering, the stream is never "
+            "left non-blocking after a request, the cursor is visible, the alternate screen is left and the main screen untouched.",
+    "note": "Trusted: CPython, CrossHair + z3 (exhaustive enumeration of the scenario selectors; a realised scenario runs on "
+            "concrete values), the OS and terminal models (contract models of termios/tty/fcntl/signal/os/select; replays run "
+            "on the same models). Outside: non-main threads, SIGINT between two bytecodes of curtsies' own enter/exit steps, "
+            "the real tty driver. Known finding C12-threadsafe-trigger-pipe-leak excluded while its witness still fails.",
+    "technique": TECH + "; OS-model and terminal-model environment stubs, crash point and configuration as symbolic selectors",
+    "design": "DESIGN.md section 3 C12",
+}
+
 NOT_YET = {}
 
 ALL = ["C%02d" % i for i in range(1, 21)]
